@@ -17,7 +17,7 @@ import vlib
 from harness import text as T
 
 PROJECT = "text"
-PROPS = ["Octave.Props.C04", "Octave.Props.C04numbers", "Octave.Props.C01flat", "Octave.Props.C01master", "Octave.Props.C01maps", "Octave.Props.C01nested", "Octave.Props.C04metanum", "Octave.Props.C04metalist", "Octave.Props.Facts"]
+PROPS = ["Octave.Props.C04", "Octave.Props.C04numbers", "Octave.Props.C01flat", "Octave.Props.C01master", "Octave.Props.C01maps", "Octave.Props.C01nested", "Octave.Props.C04metanum", "Octave.Props.C04metalist", "Octave.Props.C04metalistdoc", "Octave.Props.Facts"]
 ANCHORS = [("octave_mcp/core/emitter.py", "needs_quotes"), ("octave_mcp/core/emitter.py", "emit_value"),
            ("octave_mcp/core/emitter.py", "emit_assignment"), ("octave_mcp/core/emitter.py", "_force_quote_inline_map_value"),
            ("octave_mcp/core/emitter.py", "_emit_multiline_list"), ("octave_mcp/core/emitter.py", "emit_meta"),
